@@ -10,6 +10,7 @@
 #include <tbox/main/module.h>
 #include <tbox/util/variables.h>
 #include <type_traits>
+#include <unistd.h>
 
 using tbox::Json;
 using tbox::main::Module;
@@ -32,6 +33,8 @@ std::vector<std::string> g_tr;
 
 struct Probe;
 std::map<uint64_t, Probe*> g_mods;   // every live module (destructor not begun), by id
+std::vector<uint64_t> g_init_roots;  // modules on which the harness has an initialize() call under way (innermost last)
+bool cfg_is_mine(const Probe *p, const Json &js);
 
 // one step of a hook script: `c<api>:<target>` | `a:<parent>:<child>:<req>` | `x`
 struct Act { char kind; char api; uint64_t a, b; bool req; };
@@ -50,10 +53,14 @@ struct Probe : public Module {
 
   protected:
     // the event is recorded when the hook returns (after its script); a throwing hook is recorded as failed / run
-    bool onInit(const Json &) override {
+    // every config object carries the id of the module it belongs to in "#" (1000 = the object handed to the root call):
+    // a hook that is handed another module's object is reported in its event (`!cfg`; the model never prints that)
+    void onFillDefaultConfig(Json &js_this) override { if (named) js_this["#"] = id; }
+    bool onInit(const Json &js) override {
         bool ok = init_ok;
-        try { run_script(std::move(s_init)); } catch (...) { g_tr.push_back("i" + std::to_string(id) + "-"); throw; }
-        g_tr.push_back("i" + std::to_string(id) + (ok ? "+" : "-")); return ok;
+        std::string mine = cfg_is_mine(this, js) ? "" : "!cfg";
+        try { run_script(std::move(s_init)); } catch (...) { g_tr.push_back("i" + std::to_string(id) + "-" + mine); throw; }
+        g_tr.push_back("i" + std::to_string(id) + (ok ? "+" : "-") + mine); return ok;
     }
     bool onStart() override {
         bool ok = start_ok;
@@ -107,11 +114,24 @@ uint64_t root_of(Probe *p) {
 // and initialize() calls that hook scripts make during that op see them too (as in the model: `fillAll` holds for the whole op)
 std::set<uint64_t> g_filled;
 
+bool cfg_is_mine(const Probe *p, const Json &js) {
+    uint64_t want = 1000;
+    for (const Probe *cur = p;;) {
+        if (cur->named) { want = cur->id; break; }
+        if (g_init_roots.empty() || cur->id == g_init_roots.back() || cur->parent < 0) break;
+        auto it = g_mods.find((uint64_t)cur->parent);
+        if (it == g_mods.end()) break;
+        cur = it->second;
+    }
+    return js.is_object() && js.contains("#") && js["#"].is_number_unsigned() && js["#"].get<uint64_t>() == want;
+}
+
 void fill_cfg(Probe *p, Json &js_parent) {
     if (p->named) {
         if (!p->cfg && !g_filled.count(p->id)) return;
         Json &js_this = js_parent["m" + std::to_string(p->id)];
         js_this = Json::object();
+        js_this["#"] = p->id;
         for (auto k : p->kids) fill_cfg(g_mods.at(k), js_this);
     } else {
         for (auto k : p->kids) fill_cfg(g_mods.at(k), js_parent);
@@ -123,15 +143,23 @@ void fill_cfg(Probe *p, Json &js_parent);
 // parent->add(child): false = not a well-formed request (nothing called); ret = what add() returned
 bool do_add(uint64_t a, uint64_t b, bool req, bool &ret) {
     Probe *p = find(a), *c = find(b);
-    if (!p || !c || (c->parent < 0 && root_of(p) == c->id)) return false;   // unknown/dying module or it would close a cycle
+    if (!p || !c) return false;   // unknown/dying module
+    // also p == c and c == root of p's tree: add() must refuse (patches/C11-08).  If it does not, the answer is printed (and differs
+    // from the model's) but our shadow stays a forest, so that the harness's own walks terminate
+    bool cycle = (p == c) || (c->parent < 0 && root_of(p) == c->id);
     ret = p->add(c, req);
-    if (ret) { c->parent = (int64_t)p->id; p->kids.push_back(c->id); }
+    if (ret && !cycle) { c->parent = (int64_t)p->id; p->kids.push_back(c->id); }
     return true;
 }
 
 bool do_call(Probe *p, char api) {
     switch (api) {
-        case 'i': { Json js = Json::object(); fill_cfg(p, js); return p->initialize(js); }
+        case 'i': {
+            Json js = Json::object(); js["#"] = (uint64_t)1000; fill_cfg(p, js);
+            g_init_roots.push_back(p->id);
+            struct Pop { ~Pop() { g_init_roots.pop_back(); } } pop_at_end;
+            return p->initialize(js);
+        }
         case 's': return p->start();
         case 't': p->stop(); return true;
         case 'c': p->cleanup(); return true;
@@ -177,6 +205,37 @@ std::string trace() {
     for (auto &e : g_tr) { if (!s.empty()) s += ","; s += e; }
     return s.empty() ? "-" : s;
 }
+
+// canonical rendering of what toJson() wrote, walked along our shadow of the tree (registration order); anything that is
+// missing, superfluous or ill-typed shows up as a `!…` marker
+std::string canon(Probe *p, const Json &js, size_t extra) {
+    std::string s = std::to_string(p->id);
+    size_t keys = extra;
+    if (js.is_object() && js.contains("vars")) { ++keys; s += "v" + std::to_string(js["vars"].size()); }
+    s += "[";
+    if (!p->kids.empty()) {
+        if (!js.is_object() || !js.contains("children") || !js["children"].is_object()) return s + "!nochildren]";
+        ++keys;
+        const Json &jc = js["children"];
+        if (jc.size() != p->kids.size()) s += "!count";
+        bool first = true;
+        for (auto k : p->kids) {
+            Probe *c = g_mods.at(k);
+            if (!first) s += ",";
+            first = false;
+            const std::string nm = c->name();
+            if (!jc.contains(nm)) { s += "!missing"; continue; }
+            const Json &j = jc[nm];
+            if (!j.is_object() || !j.contains("required") || !j["required"].is_boolean()) { s += "!req"; continue; }
+            s += j["required"].get<bool>() ? "1:" : "0:";
+            s += canon(c, j, 1);
+        }
+    } else if (js.is_object() && js.contains("children")) s += "!children";
+    if (js.size() != keys) s += "!keys";
+    return s + "]";
+}
+
+bool g_quiet = false;
 
 bool to_bool(const std::string &w, bool &b) { if (w == "0") { b = false; return true; } if (w == "1") { b = true; return true; } return false; }
 bool to_id(const std::string &w, uint64_t &v) { return w.size() <= 4 && vh::to_u64(w, v) && v < 1000; }
@@ -232,9 +291,18 @@ int main() {
     while (std::getline(std::cin, line)) {
         auto w = vh::words(line);
         if (w.empty()) continue;
-        if (w[0] == "case") { reset_all(); std::cout << line << "\n"; continue; }
+        alarm(10);   // watchdog per op line: a lifecycle/add() call that never returns ends the process (SIGALRM -> CRASH for this case)
+        if (w[0] == "case") { reset_all(); g_quiet = false; std::cout << line << "\n"; continue; }
+        if (w[0] == "json") {
+            uint64_t k = 0; Probe *p = nullptr;
+            if (w.size() == 2 && to_id(w[1], k) && !g_quiet && (p = find(k)) && p->parent < 0) {
+                Json js; p->toJson(js);
+                std::cout << "P json=" << canon(p, js, 0) << "\n";
+            } else std::cout << "bad-op\n";
+            continue;
+        }
         if (w[0][0] == 'v') { if (!vars_op(w)) std::cout << "bad-op\n"; continue; }
-        if (w.size() == 1 && w[0] == "quiet") { std::cout << "P quiet\n"; continue; }   // (the model drops its B lines)
+        if (w.size() == 1 && w[0] == "quiet") { g_quiet = true; std::cout << "P quiet\n"; continue; }   // (the model drops its B lines)
         g_tr.clear();
         bool ok = false, ret = true, thrown = false;
         uint64_t a = 0, b = 0; bool f1, f2, f3, f4;
@@ -264,7 +332,10 @@ int main() {
                         struct Clear { ~Clear() { g_filled.clear(); } } clear_at_end;
                         std::vector<uint64_t> todo{p->id};
                         while (!todo.empty()) { uint64_t k = todo.back(); todo.pop_back(); g_filled.insert(k); for (auto c : g_mods.at(k)->kids) todo.push_back(c); }
-                        Json js = Json::object(); p->fillDefaultConfig(js); ret = p->initialize(js);
+                        Json js = Json::object(); js["#"] = (uint64_t)1000; p->fillDefaultConfig(js);
+                        g_init_roots.push_back(p->id);
+                        struct Pop { ~Pop() { g_init_roots.pop_back(); } } pop_at_end;
+                        ret = p->initialize(js);
                     }
                     else if (op == "start") ret = do_call(p, 's');
                     else if (op == "stop") p->stop();
@@ -277,6 +348,7 @@ int main() {
         if (!ok) { std::cout << "bad-op\n"; continue; }
         std::cout << "P ret=" << (thrown ? "X" : ret ? "1" : "0") << " tr=" << trace() << " st=" << states() << "\n";
     }
+    alarm(10);
     reset_all();
     return 0;
 }
